@@ -411,6 +411,9 @@ func fsScenarios(o Opts) []fsScenario {
 			}
 			for ci, chunks := range chunkings {
 				for pi, pre := range pres {
+					if !o.Thorough() && ci > 0 && !(pre == -1 || pre == size+5000 || pre == size-1) {
+						continue // quick tier: the second chunking only over absent / longer / one-shorter priors
+					}
 					base := fsScenario{Kind: kind, ID: uint64(1 + rng.Intn(1<<20)), Pre: pre, PreByte: byte(200 + rng.Intn(50)), Chunks: chunks}
 					if rng.Intn(8) == 0 {
 						base.ID = rng.Uint64()
